@@ -73,10 +73,11 @@ theorem C08_emptiness_views (g : Grid) (hi : Inv g) :
   · rintro ⟨p, hp⟩
     exact List.length_pos_of_mem ((hs.2 p).mpr hp)
 
-/-- `grid.agents` / iteration lists every placed agent exactly once and nobody else -/
+/-- `grid.agents` lists every placed agent exactly once and nobody else, and is the cell contents in
+    iteration order (the `AgentSet` drops nothing) -/
 theorem C08_agents_view (g : Grid) (hi : Inv g) :
-    g.agentsList.Nodup ∧ ∀ a, a ∈ g.agentsList ↔ g.pos a ≠ none :=
-  agentsList_spec g hi
+    g.agentsList.Nodup ∧ (∀ a, a ∈ g.agentsList ↔ g.pos a ≠ none) ∧ g.agentsList = g.allCells.flatMap g.content :=
+  ⟨(agentsList_spec g hi).1, (agentsList_spec g hi).2, agentsList_eq g hi⟩
 
 /-- indexing `grid[x, y]` wraps on a torus and rejects outside a bounded grid -/
 theorem C08_getitem_wraps_or_rejects (g : Grid) (hw : 0 < g.w) (hh : 0 < g.h) (p : Coord) :
